@@ -80,6 +80,7 @@ def run(chk):
     chk.assume_note('Transaction::base_fee is over-approximated by an arbitrary value in this check (the UTXO claims do '
                     'not depend on it; C05 checks the real fee arithmetic)')
     chk.bounds = {'batches': [str(s) for s in shapes_for(chk.tier)],
+                  'input-loading kernel (load_relevant_coins alone)': [str(s) for s in kernel_shapes_for(chk.tier)],
                   'shape': '(inputs, outputs, covenants) per transaction; all field values symbolic',
                   'state': 'arbitrary coin/history trees satisfying I-HIST and I-COUNT, height in [1, 10^8]',
                   'kinds': 'all TxKinds except DoscMint (covered by C18)'}
